@@ -16,6 +16,9 @@ def main():
     import gen_kernels2
     r6 = gen_kernels2.generate(os.path.join(GEN, 'Kernels2.lean'))
     print('generated:', {'Kernels2': r6['unsupported']})
+    import gen_loops
+    r7 = gen_loops.generate(os.path.join(GEN, 'Loops.lean'))     # also writes Gen/LoopsChip.lean
+    print('generated:', {'Loops': r7['unsupported']})
     import tables_nitf2
     r4 = tables_nitf2.generate(os.path.join(GEN, 'NitfTables2.lean'))
     print('generated:', {'NitfTables2': len(r4['descs']), 'errors': r4['errors'], 'mismatches': len(r4['mismatches'])})
